@@ -2,7 +2,7 @@
    obligations of Properties/C19.v, not cited by the check).
    Before commit 8b27d3f the root rule of the bundled lexer carried the auto-indent alternative for the COMMENT delimiter as
    well (`model_bundled_rules_q true`); finding F-JINJA-COMMENT-STAR, now status fixed. *)
-From Verif Require Import JinjaScan JinjaScanThm JinjaMarkerThm.
+From Verif Require Import JinjaScan JinjaScanThm JinjaMarkerThm JinjaLinePrefixThm.
 Open Scope N_scope.
 
 (* The hypothesis is necessary, also for "{#*": a COMMENT that merely starts with `*` loses the blanks before it in the
@@ -35,4 +35,51 @@ Print Assumptions C19_history_legacy_marker_plain_opener_refuted.
 Theorem C19_history_marker_mode_tie : autoindent_delimiter_aware = false -> autoindent_drop = 3%nat.
 Proof. intros H. first [reflexivity | discriminate H]. Qed.
 Print Assumptions C19_history_marker_mode_tie.
+
+
+(* Before the "lineprefix_terminator" fix filters.do_lineprefix was `lineprefix_legacy`; finding F-JINJA-LINEPREFIX-TERMINATOR, fixed.
+   (The "marker_minus" fix, F-JINJA-MARKER-MINUS, had no theorem of its own: the old parser simply had no guard.) *)
+(* (3) lineprefix.  The translated filter is one of two shapes (flag regenerated from filters.py):
+   `lineprefix_legacy` = '\n'.join(prefix + l if l else l for l in s.splitlines())   -- what /repo has now; it DROPS the final
+   terminator of the value and rewrites every terminator to LF: finding F-JINJA-LINEPREFIX-TERMINATOR (with trim_blocks + lstrip_blocks
+   the template line after a marker block is glued to its last line), patch design_notes/C19_history_lineprefix_terminator_fix.patch;
+   `lineprefix_keep`   = ''.join(prefix + l if l.splitlines()[0] else l for l in s.splitlines(True))   -- the patched shape.
+   LEGACY shape: split at "\n", the output consists of exactly the lines str.splitlines()
+   finds in the input, each non-empty one prefixed, empty ones unchanged.  Consequences spelled out below:
+   every terminator (CR LF, CR, VT, FF, FS, GS, RS, NEL, LS, PS) becomes one LF and the final terminator is dropped. *)
+Theorem C19_history_lineprefix_spec :
+  forall (s p : str),
+    forallb (fun c => negb (c =? 10)) p = true ->
+    py_splitlines s <> [] ->
+    split_lf (lineprefix_legacy s p) = map (prefix_line p) (py_splitlines s).
+Proof. exact lineprefix_spec_lemma. Qed.
+Print Assumptions C19_history_lineprefix_spec.
+
+Theorem C19_history_lineprefix_empty : forall p : str, lineprefix_legacy [] p = [] /\ (forall s, py_splitlines s = [] -> s = []).
+Proof. intros p. split; [reflexivity | exact splitlines_nil_inv]. Qed.
+Print Assumptions C19_history_lineprefix_empty.
+
+Theorem C19_history_lineprefix_lines_have_no_terminator :
+  forall s : str, Forall (fun l => forallb (fun c => negb (is_linebreak c)) l = true) (py_splitlines s).
+Proof. exact splitlines_no_break. Qed.
+Print Assumptions C19_history_lineprefix_lines_have_no_terminator.
+
+(* the final line terminator of the filtered text is dropped (whatever terminator it is) *)
+Theorem C19_history_lineprefix_drops_final_terminator :
+  forall (s p : str) (b : N),
+    s <> [] -> is_linebreak (last s 0) = false -> is_linebreak b = true ->
+    lineprefix_legacy (s ++ [b]) p = lineprefix_legacy s p.
+Proof. exact lineprefix_final_terminator. Qed.
+Print Assumptions C19_history_lineprefix_drops_final_terminator.
+
+(* the legacy shape does NOT preserve the text (finding F-JINJA-LINEPREFIX-TERMINATOR: final terminator dropped, CR LF -> LF);
+   lead: moves to History/C19_history.v together with the other lineprefix_legacy theorems when the patch lands *)
+Theorem C19_history_lineprefix_preserves_text_refuted :
+  exists s : str, lineprefix_legacy s [] <> s.
+Proof. exists [97; 13; 10; 98; 10]. vm_compute. discriminate. Qed.
+Print Assumptions C19_history_lineprefix_preserves_text_refuted.
+
+Example C19_history_lineprefix_example :
+  lineprefix_legacy [97; 13; 10; 10; 98; 11; 99; 10] [32; 32] = [32; 32; 97; 10; 10; 32; 32; 98; 10; 32; 32; 99].
+Proof. vm_compute. reflexivity. Qed.
 
